@@ -316,6 +316,67 @@ def _symarr(env, name, shape):
     return a
 
 
+def _mk_read_geqdsk(nx, ny, nlim):
+    """read_geqdsk maps the file onto R, Z, psi(R,Z), the psi profile grid and the wall as the format defines (AST slice up to the
+    constructor call, geq_read stubbed by a symbolic data dictionary)"""
+    def body(env):
+        import ast
+        import types
+        from symx import slices
+        from harness.common import PROXY
+        import hypnotoad.cases.tokamak as tok
+        sym = env.mode == "sym"
+        fn, info = slices.slice_function(tok.read_geqdsk, lambda n: isinstance(n, ast.Assign) and "geq_read(filehandle)" in ast.unparse(n),
+                                         lambda n: isinstance(n, ast.Try), ["filehandle", "geq_read", "TokamakEquilibrium"], tok.__dict__, name="read_geqdsk_mapping")
+        keys = ["sibdry", "simagx", "rleft", "rdim", "zmid", "zdim"]
+        data = {k: env.real(k, lo=-9, hi=9) for k in keys}
+        data.update(nx=nx, ny=ny, psi=_symarr(env, "psi", (nx, ny)), pres=_symarr(env, "pres", (nx,)), fpol=_symarr(env, "fpol", (nx,)))
+        if nlim:
+            data["rlim"], data["zlim"] = _symarr(env, "rlim", (nlim,)), _symarr(env, "zlim", (nlim,))
+        text = "HEADER\n 1.0 2.0\n"
+
+        class FH:
+            name = "file.geqdsk"
+
+            def __init__(self):
+                self.pos = 7
+
+            def seek(self, p):
+                self.pos = p
+
+            def read(self):
+                out = text[self.pos:]
+                self.pos = len(text)
+                return out
+
+        class TE:
+            pass
+
+        g = fn.__globals__
+        saved = g["np"]
+        g["np"] = PROXY if sym else numpy
+        try:
+            loc = fn(FH(), lambda fh: data, TE)
+        finally:
+            g["np"] = saved
+        env.witness("mapped")
+        for k in range(nx):
+            env.claim_eq("R1D[k]=rleft+k*rdim/(nx-1)", loc["R1D"][k], data["rleft"] + (data["rdim"] * k / (nx - 1) if nx > 1 else 0))
+            env.claim_eq("psi1D[k]_from_axis_to_boundary", loc["psi1D"][k], data["simagx"] + ((data["sibdry"] - data["simagx"]) * k / (nx - 1) if nx > 1 else 0))
+        for k in range(ny):
+            env.claim_eq("Z1D[k]=zmid-zdim/2+k*zdim/(ny-1)", loc["Z1D"][k], data["zmid"] - 0.5 * data["zdim"] + (data["zdim"] * k / (ny - 1) if ny > 1 else 0))
+        env.claim("psi2D_is_the_file's_psi_array", loc["psi2D"] is data["psi"])
+        env.claim("profiles_passed_through", loc["pressure"] is data["pres"] and loc["fpol"] is data["fpol"])
+        env.claim("psi_axis/bdry_from_simagx/sibdry", loc["psi_axis_gfile"] is data["simagx"] and loc["psi_bdry_gfile"] is data["sibdry"])
+        if nlim:
+            env.claim("wall=zip(rlim,zlim)", [tuple(p) for p in loc["wall"]] == [(data["rlim"][k], data["zlim"][k]) for k in range(nlim)] if not sym else
+                      all(a is data["rlim"][k] and b is data["zlim"][k] for k, (a, b) in enumerate(loc["wall"])) and len(loc["wall"]) == nlim)
+        else:
+            env.claim("no_limiter_means_no_wall", loc["wall"] is None)
+        env.claim("embedded_text_is_the_whole_file", loc["result"].geqdsk_input == text and loc["result"].geqdsk_filename == "file.geqdsk")
+    return body
+
+
 ENCW = ["hypnotoad.geqdsk._geqdsk:write", "hypnotoad.geqdsk._geqdsk:read", "hypnotoad.geqdsk._fileutils:ChunkOutput.write",
         "hypnotoad.geqdsk._fileutils:ChunkOutput.newline", "hypnotoad.geqdsk._fileutils:write_1d", "hypnotoad.geqdsk._fileutils:write_2d"]
 
@@ -349,3 +410,8 @@ for t in _sizes_q:
         OBLIGATIONS.append(Ob("layout_nx%d_ny%d_b%d_l%d_%s" % (nx, ny, nb, nl, "opt" if opt else "noopt"), _mk_layout(nx, ny, nb, nl, opt),
                               tier="quick", family="layout", desc="read(write(d)) round trip of positions", encodes=ENCW,
                               stubs=["f2s/float -> injective token pair"], bounds="nx=%d ny=%d nbdry=%d nlim=%d" % (nx, ny, nb, nl)))
+
+for (_nx, _ny, _nl, _t) in ((3, 2, 0, "quick"), (2, 4, 3, "quick"), (5, 3, 2, "thorough"), (4, 4, 1, "thorough")):
+    OBLIGATIONS.append(Ob("read_geqdsk_mapping_nx%d_ny%d_lim%d" % (_nx, _ny, _nl), _mk_read_geqdsk(_nx, _ny, _nl), tier=_t, family="read_geqdsk",
+                          encodes=["hypnotoad.cases.tokamak:read_geqdsk"], desc="R1D, Z1D, psi1D grids as the format defines; psi array, profiles and wall passed through; whole file text embedded",
+                          stubs=["geqdsk reader -> symbolic data dictionary", "linspace -> exact arithmetic"], bounds="nx=%d ny=%d nlim=%d" % (_nx, _ny, _nl)))
